@@ -2,8 +2,8 @@
    these definitions of /repo; tools/srcfacts.py regenerates their normal-form digests on every run (coq/Gen/Src_*.v).
    Statements only. *)
 From Coq Require Import List String.
-From ME Require Import Model.SrcExpected Gen.Src_executors Gen.Src_wrap Gen.Src_wrapped Gen.Src_sync
-  Proofs.Src_ok_executors Proofs.Src_ok_wrap Proofs.Src_ok_wrapped Proofs.Src_ok_sync.
+From ME Require Import Model.SrcExpected Gen.Src_executors Gen.Src_wrap Gen.Src_wrapped Gen.Src_sync Gen.Src_common Gen.Src_map Gen.Src_flat_map Gen.Src_retry Gen.Src_poll Gen.Src_throttle Gen.Src_timeout Gen.Src_cos Gen.Src_helpers
+  Proofs.Src_ok_executors Proofs.Src_ok_wrap Proofs.Src_ok_wrapped Proofs.Src_ok_sync Proofs.Src_ok_common Proofs.Src_ok_map Proofs.Src_ok_flat_map Proofs.Src_ok_retry Proofs.Src_ok_poll Proofs.Src_ok_throttle Proofs.Src_ok_timeout Proofs.Src_ok_cos Proofs.Src_ok_helpers.
 
 (* more_executors/_impl/executors.py *)
 Theorem c01_source_executors : Src_executors.facts = expected_executors.
@@ -17,8 +17,44 @@ Proof. exact src_wrapped_ok. Qed.
 (* more_executors/_impl/sync.py *)
 Theorem c01_source_sync : Src_sync.facts = expected_sync.
 Proof. exact src_sync_ok. Qed.
+(* more_executors/_impl/common.py *)
+Theorem c01_source_common : Src_common.facts = expected_common.
+Proof. exact src_common_ok. Qed.
+(* more_executors/_impl/map.py *)
+Theorem c01_source_map : Src_map.facts = expected_map.
+Proof. exact src_map_ok. Qed.
+(* more_executors/_impl/flat_map.py *)
+Theorem c01_source_flat_map : Src_flat_map.facts = expected_flat_map.
+Proof. exact src_flat_map_ok. Qed.
+(* more_executors/_impl/retry.py *)
+Theorem c01_source_retry : Src_retry.facts = expected_retry.
+Proof. exact src_retry_ok. Qed.
+(* more_executors/_impl/poll.py *)
+Theorem c01_source_poll : Src_poll.facts = expected_poll.
+Proof. exact src_poll_ok. Qed.
+(* more_executors/_impl/throttle.py *)
+Theorem c01_source_throttle : Src_throttle.facts = expected_throttle.
+Proof. exact src_throttle_ok. Qed.
+(* more_executors/_impl/timeout.py *)
+Theorem c01_source_timeout : Src_timeout.facts = expected_timeout.
+Proof. exact src_timeout_ok. Qed.
+(* more_executors/_impl/cancel_on_shutdown.py *)
+Theorem c01_source_cos : Src_cos.facts = expected_cos.
+Proof. exact src_cos_ok. Qed.
+(* more_executors/_impl/helpers.py *)
+Theorem c01_source_helpers : Src_helpers.facts = expected_helpers.
+Proof. exact src_helpers_ok. Qed.
 
 Print Assumptions c01_source_executors.
 Print Assumptions c01_source_wrap.
 Print Assumptions c01_source_wrapped.
 Print Assumptions c01_source_sync.
+Print Assumptions c01_source_common.
+Print Assumptions c01_source_map.
+Print Assumptions c01_source_flat_map.
+Print Assumptions c01_source_retry.
+Print Assumptions c01_source_poll.
+Print Assumptions c01_source_throttle.
+Print Assumptions c01_source_timeout.
+Print Assumptions c01_source_cos.
+Print Assumptions c01_source_helpers.
